@@ -235,7 +235,7 @@ func c09Plans(thorough bool) ([]c09Plan, int) {
 	var plans []c09Plan
 	bigBound := 4
 	if thorough {
-		bigBound = 6
+		bigBound = 7
 	}
 	for hs := 1; hs <= 3; hs++ {
 		for hr := 1; hr <= 3; hr++ {
